@@ -6,6 +6,7 @@ import (
 	stdjson "encoding/json"
 	"fmt"
 	"reflect"
+	"runtime/debug"
 	"strconv"
 	"strings"
 	"testing"
@@ -118,6 +119,18 @@ type info struct {
 	failedDoc        int
 }
 
+// safeDeepEqual compares the two targets with wild-address faults turned into panics, so that a
+// corrupted pointer in the library's target is attributed to the case instead of killing the process.
+func safeDeepEqual(a, b reflect.Value) (d string, pan any) {
+	defer debug.SetPanicOnFault(debug.SetPanicOnFault(true))
+	defer func() {
+		if r := recover(); r != nil {
+			pan = r
+		}
+	}()
+	return jgen.DeepEqualValues(a, b, false), nil
+}
+
 func checkCaseInfo(c Case) (*evid.Failure, info) {
 	var inf info
 	inf.failedDoc = -1
@@ -149,7 +162,13 @@ func checkCaseInfo(c Case) (*evid.Failure, info) {
 			return nil, inf // content after a failed decode is not part of the guarantee
 		}
 		inf.accepts++
-		if d := jgen.DeepEqualValues(a.Elem(), b.Elem(), false); d != "" {
+		d, pan := safeDeepEqual(a.Elem(), b.Elem())
+		if pan != nil {
+			// reading the decoded value faulted: the decoder left a wild pointer in it
+			inf.failedDoc = i
+			return &evid.Failure{Oracle: "the decoded value can be read (no wild pointers left in the target)", Observed: fmt.Sprintf("doc %d %q: reading the target: %v", i, trunc(doc), pan), Expected: "a value deeply equal to encoding/json's", Class: "panic"}, inf
+		}
+		if d != "" {
 			inf.failedDoc = i
 			sa, _ := stdjson.Marshal(a.Interface())
 			sb, _ := stdjson.Marshal(b.Interface())
@@ -315,7 +334,9 @@ func TestHeldPointers(t *testing.T) {
 
 func runOne(rt *rapid.T, test string, c Case, typ reflect.Type) {
 	evid.Eval(1)
+	evid.Journal(test, c) // a decode that corrupts memory may kill the process (GC: "found bad pointer"): the journal names the case in flight
 	f, inf := checkCaseInfo(c)
+	evid.JournalClear()
 	evid.Label("api." + c.API)
 	if c.Straddle > 0 {
 		evid.Label("decoder.document-straddles-buffer-refill")
